@@ -12,7 +12,12 @@
 #include <string>
 #include <vector>
 
+#include "verif_hook.hpp"
+
 #include <tao/pegtl.hpp>
+#include <tao/pegtl/contrib/input_with_depth.hpp>
+#include <tao/pegtl/contrib/limit_bytes.hpp>
+#include <tao/pegtl/contrib/limit_depth.hpp>
 
 namespace vh
 {
@@ -25,7 +30,6 @@ namespace vh
    inline std::string g_out;
    inline long g_steps = 0;
    inline long g_step_budget = 0;  // 0 = unlimited
-   inline long g_oob = 0;          // out-of-window reads/bumps reported by the TAO_PEGTL_VERIF hook
    inline std::map< std::string, int >*& names_ptr()
    {
       static std::map< std::string, int >* p = nullptr;
@@ -41,9 +45,17 @@ namespace vh
    {
       return *names_ptr();
    }
+   // custom error_message strings (limit_depth / limit_bytes / raise_message) -> id
+   inline std::map< std::string, int >& messages()
+   {
+      static std::map< std::string, int > m;
+      return m;
+   }
 
    struct step_budget_exceeded
    {};
+
+
 
    inline void emit( const char* tag, int id )
    {
@@ -288,6 +300,12 @@ namespace vh
                id = it->second;
             }
          }
+         else {
+            const auto it = messages().find( msg );
+            if( it != messages().end() ) {
+               id = it->second;
+            }
+         }
          // C05: what() == source:line:column: message
          const std::string expect = pos.source + ":" + std::to_string( pos.line ) + ":" + std::to_string( pos.column ) + ": " + msg;
          const bool what_ok = ( expect == e.what() );
@@ -362,8 +380,12 @@ namespace vh
       g_out += "CASE ";
       g_out += case_id;
       g_out += '\n';
+      // announce the case before running it, so that a sanitizer abort can be attributed
+      std::fwrite( g_out.data(), 1, g_out.size(), stdout );
+      std::fflush( stdout );
+      g_out.clear();
       {
-         pegtl::memory_input< T, Eol, std::string > in( buf, buf + n, "src", ib, il, ic );
+         pegtl::input_with_depth< pegtl::memory_input< T, Eol, std::string > > in( buf, buf + n, "src", ib, il, ic );
          try {
             const bool r = pegtl::parse< Root, Action, Control, A, M >( in );
             g_out += r ? "R 1" : "R 0";
@@ -378,7 +400,7 @@ namespace vh
             g_out += '\n';
          }
          char b[ 96 ];
-         std::snprintf( b, sizeof b, "O %d %zu %zu\n", g_oob != 0 ? 1 : 0, std::size_t( in.end() - in.begin() ), in.private_depth );
+         std::snprintf( b, sizeof b, "O %d %zu %zu\n", g_oob != 0 ? 1 : 0, std::size_t( in.end() - in.begin() ), in.current_depth() );
          g_out += b;
       }
       g_out += "END\n";
